@@ -73,6 +73,9 @@ pub enum DenomForm {
     Nested,
     /// right prefix, unknown base denom
     UnknownBase,
+    /// our own end of the channel as prefix (<our port>/<our channel id>/<local denom>): on the other chain that
+    /// is the trace of a token of theirs, not a voucher for ours
+    OwnEnd,
 }
 
 #[derive(Clone, Copy, Debug, Serialize, Deserialize, PartialEq)]
@@ -181,11 +184,11 @@ fn memo() -> BoxedStrategy<Option<String>> {
     prop_oneof![3 => Just(None), 1 => Just(Some(String::new())), 2 => "[a-z{}\":]{1,12}".prop_map(Some)].boxed()
 }
 fn who() -> BoxedStrategy<Who> {
-    prop_oneof![8 => Just(Who::Gov), 4 => (0u8..3).prop_map(Who::Former), 4 => user().prop_map(Who::User), 1 => Just(Who::ChainAdmin), 2 => (0u8..N_CW20 as u8).prop_map(Who::Token)].boxed()
+    prop_oneof![8 => Just(Who::Gov), 4 => (0u8..3).prop_map(Who::Former), 4 => user().prop_map(Who::User), 1 => Just(Who::ChainAdmin), 2 => (0u8..=N_CW20 as u8).prop_map(Who::Token)].boxed()
 }
 fn form(malicious: bool) -> BoxedStrategy<DenomForm> {
     if malicious {
-        prop_oneof![8 => Just(DenomForm::Right), 2 => Just(DenomForm::Bare), 2 => Just(DenomForm::WrongPort), 2 => Just(DenomForm::WrongChannel), 3 => (0u8..3).prop_map(DenomForm::OtherChannel), 2 => Just(DenomForm::NearChannel), 1 => Just(DenomForm::NearPort), 1 => Just(DenomForm::WasmPort), 1 => Just(DenomForm::Nested), 1 => Just(DenomForm::UnknownBase)].boxed()
+        prop_oneof![8 => Just(DenomForm::Right), 2 => Just(DenomForm::Bare), 2 => Just(DenomForm::WrongPort), 2 => Just(DenomForm::WrongChannel), 3 => (0u8..3).prop_map(DenomForm::OtherChannel), 2 => Just(DenomForm::NearChannel), 1 => Just(DenomForm::NearPort), 1 => Just(DenomForm::WasmPort), 1 => Just(DenomForm::Nested), 1 => Just(DenomForm::UnknownBase), 1 => Just(DenomForm::OwnEnd)].boxed()
     } else {
         prop_oneof![12 => Just(DenomForm::Right), 1 => Just(DenomForm::Bare)].boxed()
     }
@@ -749,6 +752,19 @@ pub fn run_case(prop: &str, case: &Case, ctx: &mut CaseCtx) -> Result<(), Violat
         let unfinished: Vec<usize> = pkts.iter().enumerate().filter(|(_, p)| p.state != PState::Done).map(|(i, _)| i).collect();
         let done: Done = match op {
             Op::Advance { secs } => {
+                // C11: now and then somebody sends the contract a few native tokens directly (a gift: it is not
+                // escrow of any channel), and the chain-level admin re-runs migrate on the current version (e.g. to
+                // set nothing new): neither books anything on any channel
+                if prop == "C11" && *secs % 7 == 3 {
+                    let d = w.natives[*secs as usize % N_NATIVE].clone();
+                    let gift = 1 + *secs as u128;
+                    w.app.sudo(SudoMsg::Bank(BankSudo::Mint { to_address: w.ics20.to_string(), amount: coins(gift, d) })).expect("mint");
+                    ctx.count("gift_to_the_contract");
+                    if *secs % 2 == 1 {
+                        let r = try_migrate(&mut w.app, &w.wasm_admin.clone(), &w.ics20.clone(), &MigrateMsg { default_gas_limit: None }, w.code);
+                        ctx.count(if r.is_ok() { "same_version_migrate_ok" } else { "same_version_migrate_failed" });
+                    }
+                }
                 let s = *secs as u64;
                 w.app.update_block(|b| {
                     b.height += 1;
@@ -811,7 +827,8 @@ pub fn run_case(prop: &str, case: &Case, ctx: &mut CaseCtx) -> Result<(), Violat
                 let memo = &memo;
                 // (a channel that was never connected: an id nobody uses, or - every other time - the id the other
                 // side uses for one of our channels, where that is not an id of ours as well)
-                let unknown_channel: String = (0..n_ch).map(remote_chan_id).find(|r| step_no % 2 == 0 && !(0..n_ch).any(|l| chan_id(l) == *r)).unwrap_or_else(|| "channel-77".to_string());
+                // (... or, every third time, no channel id at all)
+                let unknown_channel: String = if step_no % 3 == 1 { String::new() } else { (0..n_ch).map(remote_chan_id).find(|r| step_no % 2 == 0 && !(0..n_ch).any(|l| chan_id(l) == *r)).unwrap_or_else(|| "channel-77".to_string()) };
                 let tmsg = TransferMsg { channel: if ch_exists { chan_id(chx) } else { unknown_channel }, remote_address: remote.clone(), timeout: timeout.map(|t| t as u64), memo: memo.clone() };
                 let r = if is_native {
                     // (now and then an empty coin of another denomination is listed in front of the payment: one
@@ -871,6 +888,7 @@ pub fn run_case(prop: &str, case: &Case, ctx: &mut CaseCtx) -> Result<(), Violat
                     DenomForm::WasmPort => format!("wasm.{REMOTE_PORT}/{}/{base}", remote_chan_id(chx)),
                     DenomForm::Nested => format!("{REMOTE_PORT}/{}/{REMOTE_PORT}/{}/{base}", remote_chan_id(chx), remote_chan_id(chx)),
                     DenomForm::UnknownBase => format!("{REMOTE_PORT}/{}/unknowndenom", remote_chan_id(chx)),
+                    DenomForm::OwnEnd => format!("{}/{}/{base}", w.port(), chan_id(chx)),
                 };
                 let out = World::outstanding(&pre, chx, &base);
                 let held = remote_held[chx][tok];
@@ -1401,7 +1419,8 @@ fn resolve_who(w: &World, by: &Who, pre: &Obs, former: &[Addr]) -> Addr {
         }
         Who::User(i) => w.users[*i as usize % N_USERS].clone(),
         Who::ChainAdmin => w.wasm_admin.clone(),
-        Who::Token(k) => w.cw20[*k as usize % N_CW20].clone(),
+        // (one past the last token: the ics20 contract's own address)
+        Who::Token(k) => if *k as usize % (N_CW20 + 1) == N_CW20 { w.ics20.clone() } else { w.cw20[*k as usize % (N_CW20 + 1)].clone() },
     }
 }
 
@@ -1643,7 +1662,7 @@ pub fn decode_case(prop: &str, u: &mut arbitrary::Unstructured) -> Case {
             4 | 5 => Who::Former(arb_below(u, 3) as u8),
             6 => Who::User(arb_below(u, N_USERS) as u8),
             7 => Who::ChainAdmin,
-            _ => Who::Token(arb_below(u, N_CW20) as u8),
+            _ => Who::Token(arb_below(u, N_CW20 + 1) as u8),
         }
     };
     let n_ops = arb_below(u, 44);
@@ -1663,7 +1682,7 @@ pub fn decode_case(prop: &str, u: &mut arbitrary::Unstructured) -> Case {
                         6 => DenomForm::WrongPort,
                         7 => DenomForm::WrongChannel,
                         8 => if arb_bool(u, 1, 2) { DenomForm::OtherChannel(arb_below(u, 3) as u8) } else { DenomForm::NearChannel },
-                        _ => [DenomForm::Nested, DenomForm::UnknownBase, DenomForm::NearPort, DenomForm::WasmPort][arb_below(u, 4)],
+                        _ => [DenomForm::Nested, DenomForm::UnknownBase, DenomForm::NearPort, DenomForm::WasmPort, DenomForm::OwnEnd][arb_below(u, 5)],
                     }
                 } else if arb_bool(u, 1, 12) {
                     DenomForm::Bare
